@@ -14,7 +14,7 @@ import z3
 import processscheduler as ps
 
 from symx import engine, formula
-from symx.harness import Shape, Ob, Ctx, run_property, quiet
+from symx.harness import library_failure, confirm_library_failure, Shape, Ob, Ctx, run_property, quiet
 from checks import c13
 
 PROP = "C12"
@@ -27,6 +27,7 @@ def enumeration_shape(tag, builder):
     def build(P):
         return Ctx(problem=None, tag=tag)
 
+    @library_failure
     def fn(ctx, path):
         with quiet():
             pb, tasks = builder()
@@ -78,6 +79,7 @@ def enumeration_shape(tag, builder):
     return sh
 
 
+@confirm_library_failure
 def replay_enumeration(desc):
     import symx.harness as H
 
